@@ -3,9 +3,9 @@ import SlugModel.Lemmas.FSFrame
 /-!
 # Lemmas/UnpackInv — the filesystem invariant is kept by every step of `Unpack`
 
-`Inv dstP fs` (real destination, physical keys, all links under `dst` good) is preserved by one
+`UInv dstP fs` (real destination, physical keys, all links under `dst` good) is preserved by one
 archive entry, by the entry loop and by the deferred directory pass, and nothing outside `dst`
-changes on the way (`Frame`).  Hypotheses: `DstOK dst`, no allow-list, tidy link targets.
+changes on the way (`FsFrame`).  Hypotheses: `DstOK dst`, no allow-list, tidy link targets.
 -/
 namespace Slug
 
@@ -52,23 +52,23 @@ theorem mkdir_spine_fails {dstP : PPath} {fs fs' : FS} (hreal : RealDir fs dstP)
     simp at h
 
 theorem mkdirAll_step {dstP : PPath} (hd : dstP ≠ []) (now : Int) (perm : Nat) :
-    ∀ (fuel : Nat) (fs : FS) (path : Str), Inv dstP fs → AbsClean path →
+    ∀ (fuel : Nat) (fs : FS) (path : Str), UInv dstP fs → AbsClean path →
       (pathSegs path <+: dstP ∨ dstP <+: pathSegs path) →
-      Step dstP fs (fs.mkdirAll now fuel path perm).1 := by
+      FsStep dstP fs (fs.mkdirAll now fuel path perm).1 := by
   intro fuel
   induction fuel with
-  | zero => intro fs path _ _ _; simp only [FS.mkdirAll]; exact Step.refl _ _
+  | zero => intro fs path _ _ _; simp only [FS.mkdirAll]; exact FsStep.refl _ _
   | succ fuel ih =>
     intro fs path hinv hp hcmp
     rw [FS.mkdirAll]
     split
-    · exact Step.refl _ _
-    · exact Step.refl _ _
+    · exact FsStep.refl _ _
+    · exact FsStep.refl _ _
     · simp only
-      have hr : Step dstP fs (if pathDir path = path ∨ path = [] then ((fs, none) : FS × Option Errno)
+      have hr : FsStep dstP fs (if pathDir path = path ∨ path = [] then ((fs, none) : FS × Option Errno)
           else FS.mkdirAll fs now fuel (pathDir path) perm).1 := by
         split
-        · exact Step.refl _ _
+        · exact FsStep.refl _ _
         · apply ih fs _ hinv (pathDir_absClean path hp)
           rw [pathSegs_pathDir path hp]
           rcases hcmp with h | h
@@ -305,24 +305,24 @@ def DirsAim (dstP : PPath) (dirs : List (Str × Nat × Int)) : Prop := ∀ d ∈
 
 /-- the state after some steps: invariants hold, nothing outside `dst` changed -/
 structure StOK (dstP : PPath) (st st' : UState) : Prop where
-  inv : Inv dstP st'.fs
-  frame : Frame dstP st.fs st'.fs
+  inv : UInv dstP st'.fs
+  frame : FsFrame dstP st.fs st'.fs
   dirs : DirsAim dstP st'.dirs
 
-theorem StOK.refl {dstP : PPath} {st : UState} (hinv : Inv dstP st.fs) (hdirs : DirsAim dstP st.dirs) :
-    StOK dstP st st := ⟨hinv, Frame.refl _ _, hdirs⟩
+theorem StOK.refl {dstP : PPath} {st : UState} (hinv : UInv dstP st.fs) (hdirs : DirsAim dstP st.dirs) :
+    StOK dstP st st := ⟨hinv, FsFrame.refl _ _, hdirs⟩
 
 theorem StOK.of_step {dstP : PPath} {st : UState} {fs' : FS} {dirs' : List (Str × Nat × Int)}
-    (hinv : Inv dstP st.fs) (hs : Step dstP st.fs fs') (hdirs : DirsAim dstP dirs') :
+    (hinv : UInv dstP st.fs) (hs : FsStep dstP st.fs fs') (hdirs : DirsAim dstP dirs') :
     StOK dstP st { fs := fs', dirs := dirs' } := ⟨hinv.step hs, hs.frame, hdirs⟩
 
 theorem StOK.trans {dstP : PPath} {a b c : UState} (h1 : StOK dstP a b) (h2 : StOK dstP b c) :
     StOK dstP a c := ⟨h2.inv, h1.frame.trans h2.frame, h2.dirs⟩
 
 /-- the `os.Create` (+ retry after `Chmod 0600`) part of a regular entry -/
-theorem created_step {dstP : PPath} (hd : dstP ≠ []) {fs1 : FS} (hinv1 : Inv dstP fs1) {path : Str}
+theorem created_step {dstP : PPath} (hd : dstP ≠ []) {fs1 : FS} (hinv1 : UInv dstP fs1) {path : Str}
     (ha : Aim dstP path) (body : Str) (now : Int) (priv : Bool) :
-    Step dstP fs1
+    FsStep dstP fs1
       (match fs1.create path body now priv with
         | .error .eacces =>
           (match fs1.chmod path 0o600 with
@@ -341,8 +341,8 @@ theorem created_step {dstP : PPath} (hd : dstP ≠ []) {fs1 : FS} (hinv1 : Inv d
       · rename_i f hf
         exact h1.trans (step_create hd (hinv1.step h1) ha hf)
       · exact h1
-    · exact Step.refl _ _
-  · exact Step.refl _ _
+    · exact FsStep.refl _ _
+  · exact FsStep.refl _ _
   · rename_i f hf
     exact step_create hd hinv1 ha hf
 
@@ -353,7 +353,7 @@ theorem noLinkAbove_between {fs : FS} {segs : PPath} (h : NoLinkAbove fs segs) :
 
 theorem unpackEntry_ok {dstP : PPath} {cwd dst : Str} {priv : Bool} {st : UState} {e : Entry}
     {body : Str} {be : Bool} (hdst : DstOK dst) (hdp : dstP = pathSegs dst)
-    (hinv : Inv dstP st.fs) (hdirs : DirsAim dstP st.dirs) (htidy : e.isSymlink = true → Tidy e.link) :
+    (hinv : UInv dstP st.fs) (hdirs : DirsAim dstP st.dirs) (htidy : e.isSymlink = true → Tidy e.link) :
     StOK dstP st (unpackEntry cwd [] priv dst st e body be).1 := by
   subst hdp
   have hd : pathSegs dst ≠ [] := hdst.segs_ne_nil
@@ -380,7 +380,7 @@ theorem unpackEntry_ok {dstP : PPath} {cwd dst : Str} {priv : Bool} {st : UState
       · rename_i fs1 heq
         rw [heq] at hm
         simp only at hm
-        have hinv1 : Inv (pathSegs dst) fs1 := hinv.step hm
+        have hinv1 : UInv (pathSegs dst) fs1 := hinv.step hm
         have hst1 : StOK (pathSegs dst) st { fs := fs1, dirs := st.dirs } := StOK.of_step hinv hm hdirs
         split
         · -- symlink entry
@@ -427,15 +427,19 @@ theorem unpackEntry_ok {dstP : PPath} {cwd dst : Str} {priv : Bool} {st : UState
             · exact hst1
             · -- regular entry
               have hc := created_step hd hinv1 haim body nowT priv
-              simp only
               split
               · rename_i fs2 _ heq2
-                rw [heq2] at hc
-                exact StOK.of_step hinv (hm.trans hc) hdirs
+                have hc' : FsStep (pathSegs dst) fs1 fs2 := by
+                  have h := congrArg Prod.fst heq2
+                  simp only at h
+                  rw [← h]; exact hc
+                exact StOK.of_step hinv (hm.trans hc') hdirs
               · rename_i fs2 heq2
-                rw [heq2] at hc
-                simp only at hc
-                have hs2 := hm.trans hc
+                have hc' : FsStep (pathSegs dst) fs1 fs2 := by
+                  have h := congrArg Prod.fst heq2
+                  simp only at h
+                  rw [← h]; exact hc
+                have hs2 := hm.trans hc'
                 have hinv2 := hinv.step hs2
                 split
                 · exact StOK.of_step hinv hs2 hdirs
@@ -447,5 +451,279 @@ theorem unpackEntry_ok {dstP : PPath} {cwd dst : Str} {priv : Bool} {st : UState
                     · exact StOK.of_step hinv hs3 hdirs
                     · rename_i fs4 h4
                       exact StOK.of_step hinv (hs3.trans (step_chtimes hd (hinv.step hs3) haim h4)) hdirs
+
+/-! ## the deferred directory pass -/
+
+def chmodIgn (fs : FS) (path : Str) (mode : Nat) : FS × Bool :=
+  match fs.chmod path mode with
+  | .ok f => (f, true)
+  | .error .enoent => (fs, true)
+  | .error _ => (fs, false)
+
+def chtimesIgn (fs : FS) (path : Str) (mtime : Int) : FS × Bool :=
+  match fs.chtimes path mtime with
+  | .ok f => (f, true)
+  | .error .enoent => (fs, true)
+  | .error _ => (fs, false)
+
+theorem restoreDirs_cons (fs : FS) (path : Str) (mode : Nat) (mtime : Int)
+    (rest : List (Str × Nat × Int)) :
+    restoreDirs fs ((path, mode, mtime) :: rest) =
+      if !(chmodIgn fs path mode).2 then ((chmodIgn fs path mode).1, some .ioerr)
+      else if !(chtimesIgn (chmodIgn fs path mode).1 path mtime).2 then
+        ((chtimesIgn (chmodIgn fs path mode).1 path mtime).1, some .ioerr)
+      else restoreDirs (chtimesIgn (chmodIgn fs path mode).1 path mtime).1 rest := by
+  rw [restoreDirs]; rfl
+
+theorem chmodIgn_step {dstP : PPath} (hd : dstP ≠ []) {fs : FS} (hinv : UInv dstP fs) {path : Str}
+    (ha : Aim dstP path) (mode : Nat) : FsStep dstP fs (chmodIgn fs path mode).1 := by
+  unfold chmodIgn
+  split
+  · rename_i f hf; exact step_chmod hd hinv ha hf
+  · exact FsStep.refl _ _
+  · exact FsStep.refl _ _
+
+theorem chtimesIgn_step {dstP : PPath} (hd : dstP ≠ []) {fs : FS} (hinv : UInv dstP fs) {path : Str}
+    (ha : Aim dstP path) (mtime : Int) : FsStep dstP fs (chtimesIgn fs path mtime).1 := by
+  unfold chtimesIgn
+  split
+  · rename_i f hf; exact step_chtimes hd hinv ha hf
+  · exact FsStep.refl _ _
+  · exact FsStep.refl _ _
+
+theorem restoreDirs_step {dstP : PPath} (hd : dstP ≠ []) :
+    ∀ (dirs : List (Str × Nat × Int)) (fs : FS), UInv dstP fs → DirsAim dstP dirs →
+      FsStep dstP fs (restoreDirs fs dirs).1 := by
+  intro dirs
+  induction dirs with
+  | nil => intro fs _ _; rw [restoreDirs]; exact FsStep.refl _ _
+  | cons d rest ih =>
+    intro fs hinv hdirs
+    obtain ⟨path, mode, mtime⟩ := d
+    have ha : Aim dstP path := hdirs (path, mode, mtime) (by simp)
+    have hrest : DirsAim dstP rest := fun x hx => hdirs x (List.mem_cons_of_mem _ hx)
+    rw [restoreDirs_cons]
+    have h1 := chmodIgn_step hd hinv ha mode
+    have h2 := chtimesIgn_step hd (hinv.step h1) ha mtime
+    split
+    · exact h1
+    · split
+      · exact h1.trans h2
+      · exact (h1.trans h2).trans (ih _ (hinv.step (h1.trans h2)) hrest)
+
+/-! ## the entry loop and `Unpack` -/
+
+theorem unpackLoop_cons_ex (cwd : Str) (allow : List Str) (priv : Bool) (dst : Str) (fault : Fault)
+    (idx : Nat) (st : UState) (e : Entry) (rest : List Entry) :
+    ∃ body be, unpackLoop cwd allow priv dst fault idx st (e :: rest) =
+      if fault = .header idx then (st, some .ioerr)
+      else
+        match unpackEntry cwd allow priv dst st e body be with
+        | (st', some r) => (st', some r)
+        | (st', none) => unpackLoop cwd allow priv dst fault (idx + 1) st' rest := by
+  cases fault with
+  | none =>
+    refine ⟨e.body, false, ?_⟩
+    rw [unpackLoop]
+    · rfl
+    · intro k n h; cases h
+  | header k =>
+    refine ⟨e.body, false, ?_⟩
+    rw [unpackLoop]
+    · rfl
+    · intro k n h; cases h
+  | body k n =>
+    by_cases hc : k = idx ∧ e.isRegular = true
+    · refine ⟨e.body.take n, true, ?_⟩
+      rw [unpackLoop]
+      simp only [hc, and_self, if_true]
+      rfl
+    · refine ⟨e.body, false, ?_⟩
+      rw [unpackLoop]
+      simp only [hc, if_false]
+      rfl
+
+theorem unpackLoop_ok {dstP : PPath} {cwd dst : Str} {priv : Bool} {fault : Fault}
+    (hdst : DstOK dst) (hdp : dstP = pathSegs dst) :
+    ∀ (es : List Entry) (idx : Nat) (st : UState), UInv dstP st.fs → DirsAim dstP st.dirs →
+      TidyLinks es → StOK dstP st (unpackLoop cwd [] priv dst fault idx st es).1 := by
+  intro es
+  induction es with
+  | nil =>
+    intro idx st hinv hdirs _
+    cases fault with
+    | none =>
+      rw [unpackLoop]
+      · exact StOK.refl hinv hdirs
+      · intro k h; cases h
+    | body k n =>
+      rw [unpackLoop]
+      · exact StOK.refl hinv hdirs
+      · intro k h; cases h
+    | header k =>
+      rw [unpackLoop]
+      split <;> exact StOK.refl hinv hdirs
+  | cons e rest ih =>
+    intro idx st hinv hdirs htl
+    obtain ⟨body, be, heq⟩ := unpackLoop_cons_ex cwd [] priv dst fault idx st e rest
+    rw [heq]
+    have hstep : StOK dstP st (unpackEntry cwd [] priv dst st e body be).1 :=
+      unpackEntry_ok hdst hdp hinv hdirs (htl e (by simp))
+    split
+    · exact StOK.refl hinv hdirs
+    · split
+      · rename_i st' r heq'
+        rw [heq'] at hstep
+        exact hstep
+      · rename_i st' heq'
+        rw [heq'] at hstep
+        exact hstep.trans (ih (idx + 1) st' hstep.inv hstep.dirs
+          (fun x hx => htl x (List.mem_cons_of_mem _ hx)))
+
+/-- **`Unpack` keeps the invariants and changes nothing outside `dst`** — whatever the result and
+the reader fault. -/
+theorem unpack_ok {dstP : PPath} {cwd dst : Str} {priv : Bool} {fault : Fault} {fs : FS}
+    {es : List Entry} (hdst : DstOK dst) (hdp : dstP = pathSegs dst)
+    (hinv : UInv dstP fs) (htl : TidyLinks es) :
+    UInv dstP (unpack cwd [] priv dst fault fs es).1 ∧
+    FsFrame dstP fs (unpack cwd [] priv dst fault fs es).1 := by
+  have hd : dstP ≠ [] := by rw [hdp]; exact hdst.segs_ne_nil
+  have hloop := unpackLoop_ok (cwd := cwd) (priv := priv) (fault := fault) hdst hdp es 0
+    { fs := fs, dirs := [] } hinv (by intro d hd; cases hd) htl
+  unfold unpack
+  split
+  · rename_i st r heq
+    rw [heq] at hloop
+    exact ⟨hloop.inv, hloop.frame⟩
+  · rename_i st heq
+    rw [heq] at hloop
+    have hr := restoreDirs_step hd st.dirs st.fs hloop.inv hloop.dirs
+    have hres : UInv dstP (restoreDirs st.fs st.dirs).1 ∧ FsFrame dstP fs (restoreDirs st.fs st.dirs).1 :=
+      ⟨hloop.inv.step hr, hloop.frame.trans hr.frame⟩
+    split
+    · rename_i fs' r heq2
+      rw [heq2] at hres
+      exact hres
+    · rename_i fs' heq2
+      rw [heq2] at hres
+      exact hres
+
+/-! ## checking the hypotheses on a concrete filesystem (for closed examples) -/
+
+def isDirB : Option Node → Bool
+  | some (.dir _ _) => true
+  | _ => false
+
+theorem isDirB_iff (o : Option Node) : isDirB o = true ↔ ∃ perm mt, o = some (.dir perm mt) := by
+  unfold isDirB
+  split
+  · rename_i a b; simp
+  · rename_i h
+    constructor
+    · intro h'; cases h'
+    · rintro ⟨a, b, rfl⟩; exact absurd rfl (h a b)
+
+instance (s : Seg) : Decidable (Plain s) := by unfold Plain; infer_instance
+
+instance (dstP p : PPath) (t : Str) : Decidable (GoodLink dstP p t) := by unfold GoodLink; infer_instance
+
+/-- the binding `e` is not a link under `dstP`, or it is a good one -/
+def linkOK (dstP : PPath) (e : PPath × Node) : Prop :=
+  match e.2 with
+  | .link t => Under dstP e.1 → GoodLink dstP e.1 t
+  | _ => True
+
+instance (dstP : PPath) (e : PPath × Node) : Decidable (linkOK dstP e) := by
+  unfold linkOK; split <;> infer_instance
+
+/-- decidable form of `RealDir ∧ KeysPhysical ∧ AllGood` (checks shadowed bindings too) -/
+def FsCheck (fs : FS) (dstP : PPath) : Prop :=
+  (∀ k, k < dstP.length + 1 → isDirB (fs.lookup (dstP.take k)) = true) ∧
+  (∀ e ∈ fs, e.1 ≠ [] ∧ isDirB (fs.lookup e.1.dropLast) = true) ∧
+  (∀ e ∈ fs, linkOK dstP e)
+
+instance (fs : FS) (dstP : PPath) : Decidable (FsCheck fs dstP) := by unfold FsCheck; infer_instance
+
+theorem get_mem {fs : FS} {p : PPath} {n : Node} (h : fs.get p = some n) : (p, n) ∈ fs := by
+  induction fs with
+  | nil => simp [FS.get] at h
+  | cons x r ih =>
+    obtain ⟨q, m⟩ := x
+    unfold FS.get at h
+    split at h
+    · rename_i hq; cases h; subst hq; simp
+    · exact List.mem_cons_of_mem _ (ih h)
+
+theorem realDir_of_check {fs : FS} {dstP : PPath}
+    (h1 : ∀ k, k < dstP.length + 1 → isDirB (fs.lookup (dstP.take k)) = true) : RealDir fs dstP := by
+  intro q hq
+  have hlen := List.IsPrefix.length_le hq
+  have := h1 q.length (by omega)
+  rw [← List.prefix_iff_eq_take.mp hq] at this
+  exact (isDirB_iff _).mp this
+
+theorem keysPhysical_of_check {fs : FS}
+    (h2 : ∀ e ∈ fs, e.1 ≠ [] ∧ isDirB (fs.lookup e.1.dropLast) = true) : KeysPhysical fs := by
+  intro p n hp
+  obtain ⟨a, b⟩ := h2 (p, n) (get_mem hp)
+  exact ⟨a, (isDirB_iff _).mp b⟩
+
+theorem fsCheck_sound {fs : FS} {dstP : PPath} (h : FsCheck fs dstP) :
+    RealDir fs dstP ∧ KeysPhysical fs ∧ AllGood fs dstP := by
+  obtain ⟨h1, h2, h3⟩ := h
+  refine ⟨realDir_of_check h1, keysPhysical_of_check h2, ?_⟩
+  intro p t hp hu
+  have := h3 (p, .link t) (get_mem hp)
+  exact this hu
+
+theorem fsCheck_inv {fs : FS} {dstP : PPath} (h : FsCheck fs dstP) : UInv dstP fs :=
+  let ⟨a, b, c⟩ := fsCheck_sound h
+  ⟨a, b, c⟩
+
+/-! ## shared closed examples: a destination `/t/dst` inside `/t` -/
+
+def cexFs0 : FS :=
+  [(["t","dst"].map String.toList, .dir 0o755 0), (["t"].map String.toList, .dir 0o755 0)]
+def cexDst : Str := "/t/dst".toList
+def cexCwd : Str := "/".toList
+def cexDstP : PPath := ["t","dst"].map String.toList
+def cexTP : PPath := ["t"].map String.toList
+
+def cexLink (name target : String) : Entry :=
+  { name := name.toList, typ := tSymlink, mode := 0o777, mtime := 0, link := target.toList, body := [] }
+def cexReg (name body : String) (mode : Nat) (mtime : Int) : Entry :=
+  { name := name.toList, typ := tReg, mode := mode, mtime := mtime, link := [], body := body.toList }
+def cexDir (name : String) (mode : Nat) (mtime : Int) : Entry :=
+  { name := name.toList, typ := tDir, mode := mode, mtime := mtime, link := [], body := [] }
+
+/-- a directory, a file in it, and a link to the file -/
+def cexEsGood : List Entry :=
+  [cexDir "d" 0o755 5, cexReg "d/a" "hi" 0o644 7, cexLink "l" "d/a"]
+
+/-- what `Unpack` makes of `cexEsGood` in the empty destination -/
+def cexGoodFS : FS :=
+  [(["t","dst","d"].map String.toList, .dir 0o755 5),
+   (["t","dst","d"].map String.toList, .dir 0o755 (-1)),
+   (["t","dst","l"].map String.toList, .link "d/a".toList),
+   (["t","dst"].map String.toList, .dir 0o755 (-1)),
+   (["t","dst","d","a"].map String.toList, .file 0o644 7 "hi".toList),
+   (["t","dst","d","a"].map String.toList, .file 0o644 (-1) "hi".toList),
+   (["t","dst","d","a"].map String.toList, .file 0o644 (-1) "hi".toList),
+   (["t","dst","d"].map String.toList, .dir 0o755 (-1)),
+   (["t","dst","d"].map String.toList, .dir 0o755 (-1)),
+   (["t","dst"].map String.toList, .dir 0o755 (-1)),
+   (["t","dst"].map String.toList, .dir 0o755 0),
+   (["t"].map String.toList, .dir 0o755 0)]
+
+theorem cex_good_run :
+    unpack cexCwd [] true cexDst .none cexFs0 cexEsGood = (cexGoodFS, .ok) := by
+  decide
+
+theorem cex_dstP : pathSegs cexDst = cexDstP := by decide
+
+theorem cex_hyps : DstOK cexDst ∧ FsCheck cexFs0 cexDstP ∧ TidyLinks cexEsGood := by decide
+
+/-- the hypotheses also hold for a non-empty destination that contains a link -/
+theorem cex_hyps_good : FsCheck cexGoodFS cexDstP := by decide
 
 end Slug
